@@ -167,6 +167,17 @@ func registerLibModels(e *Engine) {
 		}
 	}
 
+	// ---------- WaitGroup over cooperative goroutines ----------
+	in["(*sync.WaitGroup).Add"] = func(fr *frame, a []value) value { return nil }
+	in["(*sync.WaitGroup).Done"] = func(fr *frame, a []value) value { return nil }
+	in["(*sync.WaitGroup).Wait"] = func(fr *frame, a []value) value {
+		if fr.i.ps.inGoroutine > 0 {
+			panic(unsupported{"WaitGroup.Wait inside a goroutine (cooperative scheduling)"})
+		}
+		fr.i.ps.runGoroutines()
+		return nil
+	}
+
 	// ---------- error wrapping ----------
 	unwrapOnce := func(fr *frame, e iface) []iface {
 		r, ok := callMethod(fr.i, fr, e, "Unwrap")
